@@ -150,6 +150,10 @@ class TreeFamily:
                bi("OR", un(un(un(t("A")))), un(un(t("B")))), bi("IMPLIES", un(un(t("A"))), un(un(un(t("B"))))),
                left("OR", [t(n) for n in ns + ns]), right("AND", [t(n) for n in ns + ns]),
                bi("REQUIRES", t("E"), t("F")), bi("EXCLUDES", t("F"), t("D"))]
+        # disjunctions of conjunctions: 27 and 32 clauses in conjunctive normal form, over nine and ten names
+        nine = "ABCDEFGHIJ"
+        out.append(right("OR", [left("AND", [t(nine[3 * i + j]) for j in range(3)]) for i in range(3)]))
+        out.append(left("OR", [bi("AND", t(nine[2 * i]), t(nine[2 * i + 1])) for i in range(5)]))
         deep = t("F")
         for i, op in enumerate(("AND", "OR", "IMPLIES", "AND", "OR")):
             other = un(t(ns[i])) if i % 2 else t(ns[i])
